@@ -119,8 +119,9 @@ fn exec(ctx: &mut Ctx, ev: &Ev, rng: &mut Rng) {
             let (ma, mb) = (e_at(ev, 0), e_at(ev, 1));
             ctx.event(&format!("epair|{}", size_class(n)), ev, ma.vars != 0 && mb.vars != 0);
             let r = guard(|| {
-                let a = ma.real();
-                let b = mb.real();
+                let d = ev.digest();
+                let a = ma.real_via(d);
+                let b = mb.real_via(d.rotate_left(29));
                 ([a ^ b, &a ^ b, &a ^ &b, a ^ &b], [!a, !&a], a == b, a, b)
             });
             let (xors, nots, eq, ra, rb) = match r {
@@ -201,7 +202,7 @@ fn exec(ctx: &mut Ctx, ev: &Ev, rng: &mut Rng) {
             ctx.event(&format!("eimplies|n={}", n), ev, m.vars != 0 && mf.is_const().is_none());
             let f = Lut::from_blocks(n, &ev.tabs[0]);
             let want = (0..1u64 << n).all(|a| !m.sat(a) || mf.bits[a as usize]);
-            match guard(|| m.real().implies_lut(&f)) {
+            match guard(|| m.real_via(ev.digest()).implies_lut(&f)) {
                 Outcome::Returned(got) => {
                     ctx.check("e-implies-lut", got == want, ev, "implies_lut", || format!("implies_lut = {} expected {} for ({:#x},{}) f={:x}", got, want, m.vars, m.xnor, ev.tabs[0][0]));
                 }
@@ -215,7 +216,8 @@ fn exec(ctx: &mut Ctx, ev: &Ev, rng: &mut Rng) {
             let (ta, tb) = terms.split_at(split);
             ctx.event(&format!("soes|len={}+{}|n={}", ta.len(), tb.len(), n), ev, terms.iter().any(|t| t.vars != 0));
             let r = guard(|| {
-                let a = Soes::from_cubes(n, ta.iter().map(|t| t.real()).collect());
+                let d = ev.digest();
+                let a = Soes::from_cubes(n, ta.iter().enumerate().map(|(k, t)| t.real_via(d.rotate_left(7 * k as u32))).collect());
                 let b = Soes::from_cubes(n, tb.iter().map(|t| t.real()).collect());
                 let ors = [&a | &b, &a | b.clone(), a.clone() | &b, a.clone() | b.clone()];
                 let vals: Vec<bool> = (0..1usize << n).map(|m| a.value(m)).collect();
